@@ -28,6 +28,14 @@ type inmemRoles struct {
 	liveHelpers            map[*ssa.Function]bool // private helpers returning (Record, bool) that look the table up
 	newID                  *ssa.Function
 	storageIface           *types.Named
+	// expiryPreds: memo of isExpiryPred (1 yes, -1 no)
+	expiryPreds map[*ssa.Function]int
+	// liveErr: the live-lookup helpers whose second result is an error (nil = a live record was found)
+	liveErr map[*ssa.Function]bool
+	// tableParams: parameters (receivers) of helpers that are handed the record / waiter table itself at every call site
+	tableParams map[*ssa.Parameter]*types.Var
+	// notifyKey: index (in Params / call arguments) of the key the notifier wakes the waiters of
+	notifyKey int
 }
 
 func storageMethodNames() []string {
@@ -59,7 +67,7 @@ func resolveRecordRoles(c *Ctx) (rec *types.Named, key, version, expires *types.
 }
 
 func resolveInmemRoles(c *Ctx) *inmemRoles {
-	r := &inmemRoles{storage: map[string]*ssa.Function{}, locking: map[*ssa.Function]bool{}, liveHelpers: map[*ssa.Function]bool{}}
+	r := &inmemRoles{storage: map[string]*ssa.Function{}, locking: map[*ssa.Function]bool{}, liveHelpers: map[*ssa.Function]bool{}, liveErr: map[*ssa.Function]bool{}}
 	r.recordT, r.recKey, r.recVersion, r.recExpires, r.storageIface = resolveRecordRoles(c)
 	impls := c.P.Implementers("kvs/inmem", r.storageIface.Underlying().(*types.Interface))
 	if len(impls) != 1 {
@@ -67,14 +75,16 @@ func resolveInmemRoles(c *Ctx) *inmemRoles {
 	}
 	r.svc = impls[0]
 	c.Role("inmem.service", r.svc.Obj().Name(), r.svc.Obj().Pos())
-	r.mutex = c.oneField("inmem.mutex", r.svc, func(f *types.Var) bool {
+	// the state may sit in the service struct itself or in a struct of the package that the service holds by value (an
+	// embedded "table"): the role is the field, wherever it is declared
+	r.mutex = c.oneFieldDeep("inmem.mutex", r.svc, func(f *types.Var) bool {
 		return ir.IsNamed(f.Type(), "sync", "Mutex") || ir.IsNamed(f.Type(), "sync", "RWMutex")
 	})
-	r.recs = c.oneField("inmem.records", r.svc, func(f *types.Var) bool {
+	r.recs = c.oneFieldDeep("inmem.records", r.svc, func(f *types.Var) bool {
 		m, ok := f.Type().Underlying().(*types.Map)
 		return ok && namedOf(m.Elem()) == r.recordT
 	})
-	r.waiters = c.oneField("inmem.waiters", r.svc, func(f *types.Var) bool {
+	r.waiters = c.oneFieldDeep("inmem.waiters", r.svc, func(f *types.Var) bool {
 		m, ok := f.Type().Underlying().(*types.Map)
 		if !ok {
 			return false
@@ -95,13 +105,24 @@ func resolveInmemRoles(c *Ctx) *inmemRoles {
 		r.storage[n] = c.RequireFn(c.P.MethodOf(r.svc, n), "inmem."+n)
 	}
 	r.all = c.P.FuncsOf("kvs/inmem")
+	r.resolveTableParams()
+	// the functions of the backend: the methods of the service, of the types its state is made of (a struct embedded by
+	// value, a named map type of a table, the waiter entry), and the package functions that are handed a table
+	stateT := r.stateTypes()
 	for _, fn := range r.all {
 		root := fn
 		for root.Parent() != nil {
 			root = root.Parent()
 		}
-		if root.Signature.Recv() != nil && namedOf(root.Signature.Recv().Type()) == r.svc {
+		if root.Signature.Recv() != nil && stateT[namedOf(root.Signature.Recv().Type())] {
 			r.svcFns = append(r.svcFns, fn)
+			continue
+		}
+		for _, p := range root.Params {
+			if r.tableParams[p] != nil {
+				r.svcFns = append(r.svcFns, fn)
+				break
+			}
 		}
 	}
 	isStorage := map[*ssa.Function]bool{}
@@ -121,26 +142,49 @@ func resolveInmemRoles(c *Ctx) *inmemRoles {
 				}
 			}
 			if lk, ok := in.(*ssa.Lookup); ok && !isStorage[fn] {
-				if _, isRecs := loadOfField(lk.X, r.recs); isRecs {
+				if r.isRecsVal(lk.X) {
 					rs := fn.Signature.Results()
 					if rs.Len() == 2 && namedOf(rs.At(0).Type()) == r.recordT && types.Identical(rs.At(1).Type(), types.Typ[types.Bool]) {
 						r.liveHelpers[fn] = true
+					}
+					// the same helper reporting "no live record" as an error instead of a flag
+					if rs.Len() == 2 && namedOf(rs.At(0).Type()) == r.recordT && ir.IsErrorType(rs.At(1).Type()) {
+						r.liveHelpers[fn] = true
+						r.liveErr[fn] = true
 					}
 				}
 			}
 		})
 	}
 	// the notifier wakes everybody unconditionally: it does not keep the waiter count (a helper that withdraws ONE waiter
-	// and closes the channel when it was the last one is not it); among several, the one the storage methods call most
+	// and closes the channel when it was the last one is not it); among several, the one the storage methods call most.
+	// It works on the waiter table (it finds the entry of a key there): a method of the waiter entry that only closes the
+	// channel of its receiver is a step of it, not the notifier.
 	{
 		best, bestCalls := (*ssa.Function)(nil), -1
+		var fallback *ssa.Function
 		for _, cand := range notifyCands {
-			counts := false
+			counts, onTable := false, false
 			ir.Instrs(cand, func(in ssa.Instruction) {
 				if _, _, ok := storeToField(in, r.wCount); ok {
 					counts = true
 				}
+				if lk, ok := in.(*ssa.Lookup); ok && r.isWaitersVal(lk.X) {
+					onTable = true
+				}
+				if cc := builtinCall(in, "delete"); cc != nil && r.isWaitersVal(cc.Args[0]) {
+					onTable = true
+				}
 			})
+			root := cand
+			for root.Parent() != nil {
+				root = root.Parent()
+			}
+			svcMethod := root.Signature.Recv() != nil && namedOf(root.Signature.Recv().Type()) == r.svc
+			if !onTable && !svcMethod {
+				continue
+			}
+			fallback = cand
 			if counts {
 				continue
 			}
@@ -152,17 +196,19 @@ func resolveInmemRoles(c *Ctx) *inmemRoles {
 				best, bestCalls = cand, n
 			}
 		}
-		if best == nil && len(notifyCands) > 0 {
-			best = notifyCands[len(notifyCands)-1]
+		if best == nil {
+			best = fallback
 		}
 		r.notify = best
 	}
 	c.RequireFn(r.notify, "inmem.notify")
 	c.Role("inmem.notify", relName(r.notify), r.notify.Pos())
+	r.notifyKey = r.keyParamOfNotify()
 	for h := range r.liveHelpers {
 		c.Role("inmem.liveLookup", relName(h), h.Pos())
 	}
 	r.newID = c.P.Func("ulidutils", "NewID")
+	debugDumpYB(c, "kvs/inmem", "kvs", "kvs/redis")
 	return r
 }
 
@@ -193,12 +239,12 @@ func (r *inmemRoles) mutates(in ssa.Instruction) bool {
 			return true
 		}
 		if mu, ok := x.(*ssa.MapUpdate); ok {
-			if _, isW := loadOfField(mu.Map, r.waiters); isW {
+			if r.isWaitersVal(mu.Map) {
 				return true
 			}
 		}
 		if cc := builtinCall(x, "delete"); cc != nil {
-			if _, isW := loadOfField(cc.Args[0], r.waiters); isW {
+			if r.isWaitersVal(cc.Args[0]) {
 				return true
 			}
 		}
@@ -242,7 +288,7 @@ func (r *inmemRoles) recsLookup(in ssa.Instruction) *ssa.Lookup {
 	if !ok {
 		return nil
 	}
-	if _, isRecs := loadOfField(lk.X, r.recs); !isRecs {
+	if !r.isRecsVal(lk.X) {
 		return nil
 	}
 	return lk
@@ -253,7 +299,7 @@ func (r *inmemRoles) recsUpdate(in ssa.Instruction) *ssa.MapUpdate {
 	if !ok {
 		return nil
 	}
-	if _, isRecs := loadOfField(mu.Map, r.recs); !isRecs {
+	if !r.isRecsVal(mu.Map) {
 		return nil
 	}
 	return mu
@@ -264,7 +310,7 @@ func (r *inmemRoles) recsDelete(in ssa.Instruction) *ssa.CallCommon {
 	if cc == nil {
 		return nil
 	}
-	if _, isRecs := loadOfField(cc.Args[0], r.recs); !isRecs {
+	if !r.isRecsVal(cc.Args[0]) {
 		return nil
 	}
 	return cc
@@ -311,7 +357,15 @@ func (c *Ctx) inmemCriticalSections(r *inmemRoles, rule string) {
 		// a) table accesses and helper calls under the mutex
 		ir.Instrs(fn, func(in ssa.Instruction) {
 			if fa, ok := in.(*ssa.FieldAddr); ok && (ir.FieldOf(fa) == r.recs || ir.FieldOf(fa) == r.waiters) {
-				c.Decide(rule, fn, "table accessed under the mutex", in, r.mutexPathHeld(ls, in), "the record/waiter table is accessed without the service mutex")
+				held := r.mutexPathHeld(ls, in)
+				// ... and so is every use of the table read here (lookup, update, delete, range) - also through a local alias
+				// that outlives the critical section (wl := s.waiters; Unlock(); wl[key])
+				for _, use := range tableUsesYB(fa) {
+					if !r.mutexPathHeld(ls, use) {
+						held = false
+					}
+				}
+				c.Decide(rule, fn, "table accessed under the mutex", in, held, "the record/waiter table is accessed without the service mutex")
 			}
 			if call, ok := in.(*ssa.Call); ok {
 				if cal := ir.StaticCallee(call); cal != nil && r.isPrivateHelper(cal) && !r.locking[cal] && touchesTables(cal, r) {
@@ -362,6 +416,11 @@ func (c *Ctx) inmemCriticalSections(r *inmemRoles, rule string) {
 }
 
 func touchesTables(fn *ssa.Function, r *inmemRoles) bool {
+	for _, p := range fn.Params {
+		if r.tableParams[p] != nil {
+			return true // the helper is handed a table itself
+		}
+	}
 	return ir.MayReach(fn, func(in ssa.Instruction) bool {
 		fa, ok := in.(*ssa.FieldAddr)
 		return ok && (ir.FieldOf(fa) == r.recs || ir.FieldOf(fa) == r.waiters)
@@ -579,7 +638,11 @@ func (r *inmemRoles) expiryEdge(from, to *ssa.BasicBlock) expiryKind {
 }
 
 // expiryFact classifies a branch fact as a step of the expiry decision.
-func (r *inmemRoles) expiryFact(f ir.Fact) expiryKind {
+func (r *inmemRoles) expiryFact(f ir.Fact) expiryKind { return r.expiryFactWith(f, nil, 0) }
+
+// expiryFactWith is expiryFact with an extra notion of "the current time" (inside an expiry predicate: its time
+// parameter). freshEdge reads "not expired" when the fact comes from an expiry predicate (no expiration, or not before now).
+func (r *inmemRoles) expiryFactWith(f ir.Fact, alsoNow func(ssa.Value) bool, depth int) expiryKind {
 	ff := f.StripNot()
 	if cm, ok := ff.Cmp(); ok {
 		isExp := func(v ssa.Value) bool { return ir.LoadedField(v) == r.recExpires }
@@ -601,7 +664,12 @@ func (r *inmemRoles) expiryFact(f ir.Fact) expiryKind {
 		}
 		isNow := func(v ssa.Value) bool {
 			cl, ok := ir.Resolve(v).(*ssa.Call)
-			return ok && ir.CalleeFullName(cl) == "time.Now"
+			return (ok && ir.CalleeFullName(cl) == "time.Now") || (alsoNow != nil && alsoNow(v))
+		}
+		// a function of the repository that IS the expiry decision (true exactly for "has an expiration and it is
+		// before now"), applied to the current time
+		if k := r.expiryPredCall(call, ff.True, isNow, depth); k != notExpiryEdge {
+			return k
 		}
 		if len(call.Call.Args) == 2 {
 			a, b := call.Call.Args[0], call.Call.Args[1]
@@ -640,6 +708,7 @@ func (r *inmemRoles) expiryFact(f ir.Fact) expiryKind {
 
 func (c *Ctx) inmemExpiry(r *inmemRoles, rule string) {
 	n := 0
+	c.inmemLiveHelperSound(r, rule)
 	for _, fn := range r.svcFns {
 		ir.Instrs(fn, func(in ssa.Instruction) {
 			lk := r.recsLookup(in)
@@ -707,7 +776,7 @@ func (c *Ctx) inmemExpiry(r *inmemRoles, rule string) {
 			if !ok {
 				return
 			}
-			if _, isRecs := loadOfField(rg.X, r.recs); !isRecs {
+			if !r.isRecsVal(rg.X) {
 				return
 			}
 			n++
@@ -720,13 +789,9 @@ func (c *Ctx) inmemExpiry(r *inmemRoles, rule string) {
 				}
 				found = true
 				live := ir.HasFact(x.Block(), func(f ir.Fact) bool {
-					ff := f.StripNot()
-					ex, isEx := ff.Cond.(*ssa.Extract)
-					if !isEx || ex.Index != 1 || !ff.True {
-						return false
-					}
-					call, isCall := ex.Tuple.(*ssa.Call)
-					return isCall && r.liveHelpers[ir.StaticCallee(call)]
+					src, present, ok := r.lookupOutcome(f)
+					_, isCall := src.(*ssa.Call)
+					return ok && present && isCall
 				})
 				if !live {
 					// the same through an in-place lookup: no path from the iteration step to the append avoids an edge
@@ -911,46 +976,7 @@ func (c *Ctx) inmemBoundedPark(r *inmemRoles, rule string) {
 
 // durationFromExpiry reports whether v (a timer channel / timer / duration) derives from the ExpiresAt field.
 func durationFromExpiry(v ssa.Value, exp *types.Var, depth int) bool {
-	if depth > 8 || v == nil {
-		return false
-	}
-	v = ir.Resolve(v)
-	if ir.LoadedField(v) == exp {
-		return true
-	}
-	switch x := v.(type) {
-	case *ssa.UnOp:
-		if fa, ok := x.X.(*ssa.FieldAddr); ok {
-			return durationFromExpiry(fa.X, exp, depth+1)
-		}
-		return durationFromExpiry(x.X, exp, depth+1)
-	case *ssa.Call:
-		for _, a := range x.Call.Args {
-			if durationFromExpiry(a, exp, depth+1) {
-				return true
-			}
-		}
-	case *ssa.BinOp:
-		return durationFromExpiry(x.X, exp, depth+1) || durationFromExpiry(x.Y, exp, depth+1)
-	case *ssa.FieldAddr:
-		return durationFromExpiry(x.X, exp, depth+1)
-	case *ssa.Extract:
-		return durationFromExpiry(x.Tuple, exp, depth+1)
-	case *ssa.Phi:
-		// a clamped / adjusted duration: every alternative derives from the expiry
-		n := 0
-		for _, e := range x.Edges {
-			if ir.IsNilConst(e) {
-				continue // "no timer": whether nil arrives only without an expiration is checked where it is used
-			}
-			if !durationFromExpiry(e, exp, depth+1) {
-				return false
-			}
-			n++
-		}
-		return n > 0
-	}
-	return false
+	return derivesYB(v, func(x ssa.Value) bool { return ir.LoadedField(x) == exp }, depth, map[*ssa.Function]bool{})
 }
 
 // ---------------------------------------------------------------------------
@@ -958,6 +984,7 @@ func durationFromExpiry(v ssa.Value, exp *types.Var, depth int) bool {
 
 func (c *Ctx) inmemNotifyAfterMutate(r *inmemRoles, rule string) {
 	n := 0
+	c.inmemLiveHelperSound(r, rule)
 	for _, fn := range r.svcFns {
 		ir.Instrs(fn, func(in ssa.Instruction) {
 			var key ssa.Value
@@ -966,19 +993,8 @@ func (c *Ctx) inmemNotifyAfterMutate(r *inmemRoles, rule string) {
 				key, what = mu.Key, "store"
 				// the insert of Create is dominated by the key-absent edge: no waiter can be registered for an absent key
 				absent := ir.HasFact(in.Block(), func(f ir.Fact) bool {
-					ff := f.StripNot()
-					ex, isEx := ff.Cond.(*ssa.Extract)
-					if !isEx || ex.Index != 1 || ff.True {
-						return false
-					}
-					switch t := ex.Tuple.(type) {
-					case *ssa.Lookup:
-						_, isRecs := loadOfField(t.X, r.recs)
-						return isRecs
-					case *ssa.Call:
-						return r.liveHelpers[ir.StaticCallee(t)]
-					}
-					return false
+					_, present, ok := r.lookupOutcome(f)
+					return ok && !present
 				})
 				if !absent {
 					absent = ir.HasFact(in.Block(), func(f ir.Fact) bool { return r.presenceWitness(f, false, 0, nil) })
@@ -996,10 +1012,17 @@ func (c *Ctx) inmemNotifyAfterMutate(r *inmemRoles, rule string) {
 			n++
 			isNotify := func(x ssa.Instruction) bool {
 				call, ok := x.(*ssa.Call)
-				if !ok || ir.StaticCallee(call) != r.notify || len(call.Call.Args) < 2 {
+				if !ok || ir.StaticCallee(call) != r.notify || len(call.Call.Args) <= r.notifyKey {
 					return false
 				}
-				return same(call.Call.Args[1], key) || samePath(call.Call.Args[1], key) || sameFieldOfSameCell(call.Call.Args[1], key)
+				// a notifier that is handed the waiter table must be handed THE table of the service
+				for i, p := range r.notify.Params {
+					if types.Identical(p.Type(), r.waiters.Type()) && (i >= len(call.Call.Args) || !r.isWaitersVal(call.Call.Args[i])) {
+						return false
+					}
+				}
+				nk := call.Call.Args[r.notifyKey]
+				return same(nk, key) || samePath(nk, key) || sameFieldOfSameCell(nk, key)
 			}
 			c.NoPath(rule, "notify after "+what, in, ir.Query{Fn: fn, From: in, Block: isNotify,
 				Target: func(x ssa.Instruction) bool {
@@ -1110,7 +1133,7 @@ func (c *Ctx) inmemWaitRules(r *inmemRoles, w2, w3, w4, w5, w6 string) {
 			isClose := builtinCall(in, "close") != nil
 			isDel := false
 			if cc := builtinCall(in, "delete"); cc != nil {
-				_, isDel = loadOfField(cc.Args[0], r.waiters)
+				isDel = r.isWaitersVal(cc.Args[0])
 			}
 			if !isClose && !isDel {
 				return
@@ -1204,11 +1227,11 @@ func (c *Ctx) inmemWaitRules(r *inmemRoles, w2, w3, w4, w5, w6 string) {
 					}
 				}
 				c.Decide(w5, fn, "nil decided on a lookup of this critical section", ret, okL, "the version is compared on data that was not read under the current lock acquisition")
-			case globalOf(ev) != nil && globalOf(ev).Name() == "ErrNotExist":
+			case r.errSentinel(ev) == "ErrNotExist":
 				okG := e.HasFact(func(f ir.Fact) bool {
 					ff := f.StripNot()
 					ex, isEx := ff.Cond.(*ssa.Extract)
-					return isEx && ex.Index == 1 && !ff.True
+					return isEx && ex.Index == 1 && !ff.True && !ir.IsErrorType(ex.Type())
 				})
 				if !okG {
 					okG = e.HasFact(func(f ir.Fact) bool { return r.presenceWitness(f, false, 0, nil) })
@@ -1233,6 +1256,9 @@ func (c *Ctx) inmemWaitRules(r *inmemRoles, w2, w3, w4, w5, w6 string) {
 						w, perr := (ir.PathQuery{Fn: fn, Target: func(x ssa.Instruction, val *ir.Valuation) bool {
 							if x != ssa.Instruction(ret) {
 								return false
+							}
+							if !constComparisonsHoldYB(fn, val) {
+								return false // the path decided a comparison of two constants against their values: infeasible
 							}
 							inDone := false
 							ir.Instrs(fn, func(y ssa.Instruction) {
@@ -1271,7 +1297,7 @@ func (c *Ctx) inmemWaitRules(r *inmemRoles, w2, w3, w4, w5, w6 string) {
 			if cc == nil {
 				return false
 			}
-			_, isW := loadOfField(cc.Args[0], r.waiters)
+			isW := r.isWaitersVal(cc.Args[0])
 			return isW
 		}
 		ir.Instrs(nf, func(in ssa.Instruction) {
@@ -1412,13 +1438,13 @@ func (c *Ctx) inmemNoSharing(r *inmemRoles, rule string) {
 		for _, o := range ir.Origins(v) {
 			switch x := o.(type) {
 			case *ssa.Lookup:
-				if _, ok := loadOfField(x.X, r.recs); ok {
+				if r.isRecsVal(x.X) {
 					return true
 				}
 			case *ssa.Extract:
 				switch t := x.Tuple.(type) {
 				case *ssa.Lookup:
-					if _, ok := loadOfField(t.X, r.recs); ok {
+					if r.isRecsVal(t.X) {
 						return true
 					}
 				case *ssa.Call:
@@ -1427,7 +1453,7 @@ func (c *Ctx) inmemNoSharing(r *inmemRoles, rule string) {
 					}
 				case *ssa.Next:
 					if rg, ok := t.Iter.(*ssa.Range); ok {
-						if _, isRecs := loadOfField(rg.X, r.recs); isRecs && x.Index == 2 {
+						if r.isRecsVal(rg.X) && x.Index == 2 {
 							return true
 						}
 					}
@@ -1455,7 +1481,7 @@ func (c *Ctx) inmemNoSharing(r *inmemRoles, rule string) {
 		ir.Instrs(fn, func(in ssa.Instruction) {
 			switch x := in.(type) {
 			case *ssa.MapUpdate:
-				if _, ok := loadOfField(x.Map, r.recs); !ok {
+				if !r.isRecsVal(x.Map) {
 					return
 				}
 				nStore++
@@ -1590,7 +1616,7 @@ func (c *Ctx) inmemRegistrationBalance(r *inmemRoles, rule string) {
 		f := f0.StripNot()
 		if ex, ok := f.Cond.(*ssa.Extract); ok && ex.Index == 1 && !f.True {
 			if lk, isLk := ex.Tuple.(*ssa.Lookup); isLk {
-				if _, isW := loadOfField(lk.X, r.waiters); isW {
+				if r.isWaitersVal(lk.X) {
 					return true
 				}
 			}
@@ -1675,19 +1701,8 @@ func selectCaseOnPath(val *ir.Valuation, sel *ssa.Select) (int, bool) {
 // presenceFact: f says that a lookup of the record table (or a call of a live-record helper) found (want) / did not find
 // (!want) the key.
 func (r *inmemRoles) presenceFact(f ir.Fact, want bool) bool {
-	ff := f.StripNot()
-	ex, ok := ff.Cond.(*ssa.Extract)
-	if !ok || ex.Index != 1 || ff.True != want {
-		return false
-	}
-	switch t := ex.Tuple.(type) {
-	case *ssa.Lookup:
-		_, isRecs := loadOfField(t.X, r.recs)
-		return isRecs
-	case *ssa.Call:
-		return r.liveHelpers[ir.StaticCallee(t)]
-	}
-	return false
+	_, present, ok := r.lookupOutcome(f)
+	return ok && present == want
 }
 
 // presenceWitness is presenceFact handed on through flags and pointers that are merged from several ways (a helper
